@@ -18,6 +18,13 @@
    bodies: all = set every item; some = set odd items only; none = set nothing; ierr = set_error("ie") on odd
      items, values on even ones; raise / braise = set item 1, then raise "fe" / "fb"; new = create a new item
      (through the active-batch pointer) and then set every own item.
+     f<s>-<how> = a body that finishes its own batch half-way: it sets item 1 first (s = 1) or nothing (s = 0), then
+     calls self.cancel("ce") (how = cancel_e), self.cancel() (cancel), self.set_error("se") (seterr) or
+     self.set_value(None) (setval).  What the body does afterwards - return, raise, try to set more items (which
+     raises FutureIsAlreadyComputed out of the body) - is not a dimension of the model: the batch has made its one
+     transition, so every ending has the same prescribed results (the harness replays every such history with each
+     ending).  Likewise the model has no debug-option dimension: every history is replayed under the default
+     options, with ENABLE_COMPLEX_ASSERTIONS off and with KEEP_DEPENDENCIES on, against the same prescriptions.
    announcements recorded per operation (field a of a history record), in order: "n<b>.<i>" an item was created by
      the flush body and joined batch b; "i<b>.<i>=<code>" on_computed of an item; "b<b>=<code>" on_computed of the
      batch ("ok" = no error).  The order among consecutive item announcements is not prescribed (canonical: by index). *)
@@ -27,7 +34,13 @@ Depth == IF "DEPTH" \in DOMAIN IOEnv THEN atoi(IOEnv.DEPTH) ELSE 4
 MaxI  == IF "MAXI" \in DOMAIN IOEnv THEN atoi(IOEnv.MAXI) ELSE 2
 MaxB  == 2
 MaxQuiet == IF "MAXQUIET" \in DOMAIN IOEnv THEN atoi(IOEnv.MAXQUIET) ELSE 2   \* longest run of operations that change nothing
-Bodies == {"all", "some", "none", "ierr", "raise", "braise", "new"}
+PlainBodies == {"all", "some", "none", "ierr", "raise", "braise", "new"}
+FinBodies == {"f0-cancel_e", "f1-cancel_e", "f0-cancel", "f1-cancel", "f0-seterr", "f1-seterr", "f0-setval", "f1-setval"}
+Bodies == PlainBodies \cup FinBodies
+FinS(bd) == IF bd \in {"f1-cancel_e", "f1-cancel", "f1-seterr", "f1-setval"} THEN 1 ELSE 0      \* sets item 1 first
+FinOut(bd) == CASE bd \in {"f0-cancel_e", "f1-cancel_e"} -> "ce" [] bd \in {"f0-cancel", "f1-cancel"} -> "bce"
+                [] bd \in {"f0-seterr", "f1-seterr"} -> "se" [] OTHER -> "ok"                       \* the batch's outcome
+FinSt(bd) == IF bd \in {"f0-cancel_e", "f1-cancel_e", "f0-cancel", "f1-cancel"} THEN "cancelled" ELSE "flushed"
 
 VARIABLES kind, body, pre, st, out, items, active, runs, log, cur, hist
 vars == <<kind, body, pre, st, out, items, active, runs, log, cur, hist>>
@@ -59,12 +72,14 @@ BodySets(bd, b, i) ==
     [] bd = "none" -> Unset
     [] bd = "ierr" -> IF i % 2 = 1 THEN Err("ie") ELSE Val(b, i)
     [] bd \in {"raise", "braise"} -> IF i = 1 THEN Val(b, i) ELSE Unset
+    [] bd \in FinBodies -> IF i = 1 /\ FinS(bd) = 1 THEN Val(b, i) ELSE Unset
 BodyEnds(bd) == CASE bd = "raise" -> "fe" [] bd = "braise" -> "fb" [] OTHER -> "ok"
 
+FinPre == IF "FINPRE" \in DOMAIN IOEnv THEN IOEnv.FINPRE ELSE "*"  \* "2": self-finishing bodies only with 2 requests already made
 Only == IF "ONLY" \in DOMAIN IOEnv THEN IOEnv.ONLY ELSE "*"      \* "<kind>/<body>" restricts a run to one configuration
 Init == /\ \E kb \in ({"own"} \X Bodies) \cup {<<"debug", "all">>} :
              kind = kb[1] /\ body = kb[2] /\ (Only = "*" \/ Only = kb[1] \o "/" \o kb[2])
-        /\ pre \in {0, 2}
+        /\ pre \in (IF body \in FinBodies /\ FinPre = "2" THEN {2} ELSE {0, 2})
         /\ st = <<"pending">> /\ out = <<"none">> /\ items = << [j \in 1..pre |-> Unset] >> /\ runs = <<0>> /\ active = 1
         /\ log = <<>> /\ cur = NoCur /\ hist = <<>>
 
@@ -125,20 +140,34 @@ FlushBody ==
          setnow == {j \in 1..n : mine[j] # Unset}
          ann == [q \in 1..Cardinality(setnow) |->
                    [k |-> "item", b |-> b, i |-> CHOOSE j \in setnow : Cardinality({x \in setnow : x < j}) = q - 1]]
+         (* a body that finishes its own batch: the batch makes its one transition here, inside the body - leftover
+            items are completed with the error (or "not set" after set_value), then the batch is announced *)
+         fe == FinOut(body)
+         fleft == {j \in 1..n : mine[j] = Unset}
+         ffinal == [j \in 1..n |-> IF j \in fleft THEN (IF fe = "ok" THEN Err("notset") ELSE Err(fe)) ELSE mine[j]]
+         fann == [q \in 1..Cardinality(fleft) |->
+                   [k |-> "item", b |-> b, i |-> CHOOSE j \in fleft : Cardinality({x \in fleft : x < j}) = q - 1]]
      IN /\ runs' = [runs EXCEPT ![b] = @ + 1]
-        /\ IF body = "new"
-           THEN /\ items' = [[items EXCEPT ![active] = Append(@, Unset)] EXCEPT ![b] = mine]
-                /\ cur' = [cur EXCEPT !.stage = "end", !.mb = active, !.mi = Len(items[active]) + 1]
-           ELSE /\ items' = [items EXCEPT ![b] = mine]
+        /\ IF body \in FinBodies
+           THEN /\ items' = [items EXCEPT ![b] = ffinal]
+                /\ log' = log \o ann \o fann \o << [k |-> "batch", b |-> b, i |-> 0] >>
+                /\ st' = [st EXCEPT ![b] = FinSt(body)] /\ out' = [out EXCEPT ![b] = fe]
                 /\ cur' = [cur EXCEPT !.stage = "end"]
-        /\ log' = log \o ann
-  /\ UNCHANGED <<kind, body, pre, st, out, active, hist>>
+           ELSE /\ IF body = "new"
+                   THEN /\ items' = [[items EXCEPT ![active] = Append(@, Unset)] EXCEPT ![b] = mine]
+                        /\ cur' = [cur EXCEPT !.stage = "end", !.mb = active, !.mi = Len(items[active]) + 1]
+                   ELSE /\ items' = [items EXCEPT ![b] = mine]
+                        /\ cur' = [cur EXCEPT !.stage = "end"]
+                /\ log' = log \o ann
+                /\ UNCHANGED <<st, out>>
+  /\ UNCHANGED <<kind, body, pre, active, hist>>
 
 FlushEnd ==
   /\ cur # NoCur /\ cur.stage = "end"
   /\ LET b == cur.b
          n == Len(items[b])
-         e == BodyEnds(body)
+         done == Finished(b)      \* the body finished the batch itself: however the body ends, nothing more happens
+         e == IF done THEN out[b] ELSE BodyEnds(body)
          left == {j \in 1..n : items[b][j] = Unset}
          final == [j \in 1..n |-> IF j \in left THEN (IF e = "ok" THEN Err("notset") ELSE Err(e)) ELSE items[b][j]]
          ann == [q \in 1..Cardinality(left) |->
@@ -150,8 +179,9 @@ FlushEnd ==
                 [] cur.o = "bvalue" -> IF e = "ok" THEN <<"ok">> ELSE <<"err", e>>
                 [] cur.o = "berror" -> <<"errq", e>>
      IN /\ items' = [items EXCEPT ![b] = final]
-        /\ log' = log \o ann \o << [k |-> "batch", b |-> b, i |-> 0] >>
-        /\ st' = [st EXCEPT ![b] = "flushed"] /\ out' = [out EXCEPT ![b] = e]
+        /\ log' = (IF done THEN log ELSE log \o ann \o << [k |-> "batch", b |-> b, i |-> 0] >>)
+        /\ st' = (IF done THEN st ELSE [st EXCEPT ![b] = "flushed"])
+        /\ out' = [out EXCEPT ![b] = e]
         /\ hist' = Append(hist, RecN(cur.o, b, cur.i, r, a, runs[b]))
         /\ cur' = NoCur
   /\ UNCHANGED <<kind, body, pre, active, runs>>
@@ -213,16 +243,18 @@ Batches == 1..NB
 OneTransition ==
   [][\A b \in Batches : st'[b] # st[b] =>
         \/ st[b] = "pending" /\ st'[b] \in {"flushing", "cancelled"}
-        \/ st[b] = "flushing" /\ st'[b] = "flushed"]_vars
+        \/ st[b] = "flushing" /\ st'[b] \in {"flushed", "cancelled"}]_vars
 OutcomeStable ==
   [][\A b \in Batches : /\ out[b] # "none" => out'[b] = out[b]
                         /\ \A i \in 1..Len(items[b]) : items[b][i] # Unset => items'[b][i] = items[b][i]]_vars
 (* no item can be added to a finished batch *)
 NoItemIntoFinished == [][\A b \in Batches : Finished(b) => Len(items'[b]) = Len(items[b])]_vars
-(* the flush body runs exactly once for a flushed batch, never for a cancelled or pending one *)
+(* the flush body runs exactly once for a flushed batch, never for a pending one, and for a cancelled one only
+   if it was its own body that cancelled it *)
 BodyRunsOnce == \A b \in Batches : /\ runs[b] <= 1
                                    /\ st[b] = "flushed" => runs[b] = 1
-                                   /\ st[b] \in {"pending", "cancelled"} => runs[b] = 0
+                                   /\ st[b] = "pending" => runs[b] = 0
+                                   /\ st[b] = "cancelled" /\ body \notin FinBodies => runs[b] = 0
 (* when a batch finishes every item is complete, and was announced before the batch's own announcement *)
 NoItemLeftPending == \A b \in Batches : Finished(b) => \A i \in 1..Len(items[b]) : items[b][i] # Unset
 ItemsBeforeBatch ==
@@ -234,10 +266,9 @@ AnnouncedOnce ==
 (* item outcome precedence: value/error set by the body, else the flush or cancellation error, else "not set" *)
 Precedence ==
   \A b \in Batches : \A i \in 1..Len(items[b]) :
-     /\ st[b] = "flushed" =>
-          items[b][i] = IF BodySets(body, b, i) # Unset THEN BodySets(body, b, i)
+     Finished(b) =>
+          items[b][i] = IF runs[b] = 1 /\ BodySets(body, b, i) # Unset THEN BodySets(body, b, i)
                         ELSE IF out[b] # "ok" THEN Err(out[b]) ELSE Err("notset")
-     /\ st[b] = "cancelled" => items[b][i] = Err(out[b])
 (* the batch stops being the active one before its body runs; items made by the body join a fresh pending batch *)
 ActiveMovedBeforeBody == cur # NoCur => /\ active # cur.b /\ st[active] = "pending"
                                         /\ cur.mb # 0 => cur.mb # cur.b /\ st[cur.mb] = "pending"
